@@ -13,11 +13,17 @@ from ..report import Report
 CONSUMED = ("attr", ("param", "self"), "_stream_consumed")
 
 
-def _reads(pa: Path, side: str) -> List[int]:
+def _reads(pa: Path, side: str, col=None) -> List[int]:
     out = []
     for i, e in enumerate(pa.events):
         if e.kind != "call":
             continue
+        if side == "wsgi" and col is not None and e.a == ("builtin", "iter") and len(e.b) == 2 and e.b[0][0] in ("lambda", "closure"):
+            # iter(<callable that reads wsgi.input>, <sentinel>): the read happens each time the iterator is advanced
+            node = col.nodes.get(e.tag, (None, None))[0]
+            a0 = node.args[0] if isinstance(node, ast.Call) and node.args else None
+            if isinstance(a0, ast.Lambda) and any(isinstance(n, ast.Attribute) and n.attr in ("read", "readline") for n in ast.walk(a0.body)):
+                out.append(i)
         if side == "asgi" and e.a == ("attr", ("param", "self"), "_receive"):
             out.append(i)
         if side == "wsgi" and e.a[0] == "attr" and e.a[2] in ("read", "readline", "readlines", "__iter__") and "wsgi.input" in show(e.a[1]):
@@ -50,7 +56,7 @@ def run(p: Program, rep: Report, tier: str) -> None:
         rep.cfg_paths += len(paths)
         n_read = n_replay = n_raise = 0
         for pa in paths:
-            reads = _reads(pa, side)
+            reads = _reads(pa, side, col)
             flag_false = (CONSUMED, False) in pa.facts
             flag_true = (CONSUMED, True) in pa.facts
             sets = [i for i, e in enumerate(pa.events) if e.kind == "store" and e.a == CONSUMED and e.b == ("const", True)]
@@ -316,15 +322,29 @@ def wsgi_read_loop(st: FuncInfo):
     def leaves(stmt: ast.stmt) -> bool:
         return isinstance(stmt, (ast.Return, ast.Break)) and getattr(stmt, "value", None) is None
 
+    results = []
     for lp in [n for n in ast.walk(st.node) if isinstance(n, (ast.While, ast.For))]:
         if not any(is_read(x) or (isinstance(x, ast.Attribute) and x.attr == "read") for x in ast.walk(lp)):
             continue
+        results.append(_one_read_loop(lp, is_read, yields, leaves))
+    for kind in ("violation", "unknown", "ok"):
+        for r in results:
+            if r[0] == kind:
+                return r
+    return ("unknown", "no loop calling <input>.read(<size parameter>) found")
+
+
+def _one_read_loop(lp, is_read, yields, leaves):
+    if True:
         # idiom 3: for <chunk> in iter(<callable reading size bytes>, b""): yield <chunk>
         if isinstance(lp, ast.For):
             it = lp.iter
             if isinstance(it, ast.Call) and isinstance(it.func, ast.Name) and it.func.id == "iter" and len(it.args) == 2 and isinstance(it.args[1], ast.Constant) and it.args[1].value == b"" \
                     and isinstance(lp.target, ast.Name) and len(lp.body) == 1 and yields(lp.body[0], lp.target.id):
                 return ("ok", "for chunk in iter(<read>, b''): yield chunk")
+            if isinstance(it, ast.Call) and isinstance(it.func, ast.Name) and it.func.id == "range":
+                return ("violation", f"the body is read by a counted loop (for ... in {ast.unparse(it)[:50]}): the loop ends after a fixed number of reads, "
+                        "so after short reads the tail of the body is never read - only an EMPTY read marks the end of the body", lp)
             return ("unknown", "for-loop reader of an unrecognised shape")
         # idiom 2: while <chunk> := <input>.read(size): yield <chunk>
         if isinstance(lp.test, ast.NamedExpr) and is_read(lp.test.value) and len(lp.body) == 1 and yields(lp.body[0], lp.test.target.id):
@@ -352,7 +372,6 @@ def wsgi_read_loop(st: FuncInfo):
         if gs in ([], [(ck, True)]):
             return ("ok", "read; leave on an empty read; yield the chunk")
         return ("violation", "a chunk is yielded only under an extra condition (chunks can be skipped)", ys[0])
-    return ("unknown", "no loop calling <input>.read(<size parameter>) found")
 
 
 def wsgi_read_loop_ok(st: FuncInfo) -> bool:
